@@ -121,7 +121,11 @@ impl Selector {
                     }
                     _ => false,
                 },
-                SelectorComponent::Star => Self::do_matches(&comps[1..], node),
+                SelectorComponent::Star => match &node.data {
+                    // `*` matches any element, but not the document node above <html>.
+                    Element { .. } => Self::do_matches(&comps[1..], node),
+                    _ => false,
+                },
                 SelectorComponent::CombChild => {
                     if let Some(parent) = node.get_parent() {
                         Self::do_matches(&comps[1..], &parent)
